@@ -14,6 +14,15 @@ CANON = {
 }
 
 
+def _bounds_typed(s):
+    ok = lambda mn, mx: isinstance(mn, int) and not isinstance(mn, bool) and (mx is None or (isinstance(mx, int) and not isinstance(mx, bool)))
+    if s[0] == "leaf":
+        return ok(s[2], s[3])
+    if s[0] == "seq":
+        return all(_bounds_typed(x) for x in s[1])
+    return ok(s[2], s[3]) and all(_bounds_typed(x) for x in s[1])
+
+
 class RuleInfo:
     def __init__(self):
         self.rules = rulemod.rules_dict
@@ -22,6 +31,10 @@ class RuleInfo:
         for rn, data in self.rules.items():
             try:
                 self.spec[rn] = lang.parse(data[1])
+                if not _bounds_typed(self.spec[rn]):
+                    # a spec with a non-integer minimum / a maximum that is neither an integer nor None is C10's business to report;
+                    # the generators of all other checks treat the rule as "nothing known" instead of tripping over the arithmetic
+                    self.spec[rn] = None
             except Exception:
                 self.spec[rn] = None
         # an element may be mapped to a rule name the table does not have (C10 is about exactly that): the harnesses of the other
